@@ -260,6 +260,18 @@ class Resolver:
 
     def _container_elem_of(self, f, e, env, benv):
         """Element classes when iterating over expression e."""
+        # a local defined in terms of itself (`xs = xs[::-1]`) must not send the walk round in circles
+        active = self.__dict__.setdefault("_elem_active", set())
+        k_ = (f.qual, id(e))
+        if k_ in active or len(active) > 40:
+            return set()
+        active.add(k_)
+        try:
+            return self._container_elem_of_1(f, e, env, benv)
+        finally:
+            active.discard(k_)
+
+    def _container_elem_of_1(self, f, e, env, benv):
         if isinstance(e, ast.Attribute):
             owner = self.expr_classes(f, e.value, env, benv)
             ks = self.elem_class(owner, e.attr)
